@@ -3,6 +3,8 @@ package main
 import (
 	"encoding/json"
 	"fmt"
+	"os"
+	"path/filepath"
 	"reflect"
 	"runtime"
 	"sort"
@@ -398,6 +400,9 @@ func runC14(k int, rng *Rng) CaseResult {
 		runtime.KeepAlive(pins)
 		pins = nil
 	}
+	if !w.failed() && k%4 == 1 {
+		stats.Count("repair_shape_checks", int64(w.repairShapes()))
+	}
 	if !w.failed() && k%3 == 0 {
 		stats.Count("embedded_shape_checks", int64(w.embScenario()))
 	}
@@ -551,4 +556,79 @@ func kindOfDiff(a, b string) string {
 		}
 	}
 	return "-"
+}
+
+// repairShapes: the index is lost, Repair re-indexes every object file (and, when caching is on,
+// serves them from the cache afterwards): each object read through the handle still equals a round
+// trip through its own file - no container, no absent field is shared between two stored objects.
+func (w *World) repairShapes() (n int) {
+	cfg := w.cfg
+	var err error
+	if w.call("Close", func() { err = w.db.Close() }) {
+		return
+	}
+	if err != nil {
+		w.fail("close-failed", "Close", "-", err.Error())
+		return
+	}
+	clockSettle()
+	d := readDisk(w.collDir(), cfg.Ext, cfg.Compress)
+	if len(d.Objects) < 2 {
+		w.Open()
+		return
+	}
+	os.Remove(filepath.Join(w.collDir(), "schema.json"))
+	w.Open()
+	w.call("Create", func() { err = w.db.Create(&Rec{}, schemaFor(cfg, &Rec{})) })
+	if err != nil && !sod.IsIndexCorrupted(err) {
+		w.fail("create-failed", "Create(schema removed)", "-", err.Error())
+		return
+	}
+	w.call("Repair", func() { err = w.db.Repair(&Rec{}) })
+	if err != nil {
+		w.fail("repair-error", "Repair", "rmschema", err.Error())
+		return
+	}
+	var us []string
+	for u := range d.Objects {
+		us = append(us, u)
+	}
+	sort.Strings(us)
+	for pass := 0; pass < 2; pass++ {
+		for _, u := range us {
+			y, e := decodeRec(u, d.Objects[u])
+			if e != nil {
+				continue
+			}
+			var o sod.Object
+			name := []string{"GetByUUID", "Search.Collect"}[pass]
+			w.call(name, func() {
+				if pass == 0 {
+					o, e = w.db.GetByUUID(&Rec{}, u)
+					return
+				}
+				var res []sod.Object
+				res, e = w.db.Search(&Rec{}, "Tag", "=", y.Tag).Collect()
+				for _, a := range res {
+					if a.UUID() == u {
+						o = a
+					}
+				}
+			})
+			if w.failed() {
+				return
+			}
+			r, ok := o.(*Rec)
+			if e != nil || !ok || r == nil {
+				w.fail("read-error", name, "after-repair", fmt.Sprintf("%s: %v", short(u), e))
+				return
+			}
+			if g, f := canonJSON(r), canonJSON(y); g != f {
+				w.fail("read-after-repair-differs-from-file", name, kindOfDiff(g, f), fmt.Sprintf("read  %s\n file  %s", g, f))
+				return
+			}
+			n++
+		}
+	}
+	return
 }
